@@ -2,6 +2,7 @@
    Statements only; proofs in theories/SATight.v (knowledge monotonicity) and theories/NormsProofs.v (gap functions). *)
 From ICG Require Import Prelude Bits Table Bounds FoldLemmas BoundsSpec SASound SAEquiv SATight Checks Shapley Exploit Norms NormsProofs SAMSpec SAMMono GapsAlongReveals.
 From ICG Require Import RegistryTypes gen.Registry gen.RegistryLinkProps Env.
+From ICG Require Import ShiftProofs.
 
 (* K <= K' pointwise: both superadditive computers give pointwise tighter intervals under K'.
    Holds for any pair of tables holding the two knowledge sets (stale rows arbitrary), hence along any reveal sequence. *)
@@ -85,4 +86,54 @@ Proof.
   split; [apply agrees_check_sound; vm_compute; reflexivity|].
   split; [apply agrees_check_sound; vm_compute; reflexivity|].
   eexists. eexists. split; [vm_compute; reflexivity|]. split; vm_compute; reflexivity.
+Qed.
+
+(* ------------------------------------------------------------------ *)
+(* The gaps do not see a translation of the game by an additive game   *)
+(* (theories/ShiftProofs.v)                                            *)
+(* ------------------------------------------------------------------ *)
+(* tr_rel a n t t': on every coalition S of the n players t' has the flag of t and both bounds moved by
+   tr_add a n S = sum of the weights a i of the members of S.  Then the interval widths are equal, the four gap
+   functions of the environment return the SAME value (ev_gap stores Qred-canonical rationals, so = and not only ==;
+   None = exploitability raises because the grand coalition is unknown, on both tables), and so do the underlying
+   exploitability / l1 / l-infinity / squared l2 functions. *)
+Theorem C07_gaps_shift_invariant :
+  forall (a : nat -> Q) (n : nat) (t t' : table),
+    tr_rel a n t t' ->
+    (forall S, bounded n S -> hi (get t' S) - lo (get t' S) == hi (get t S) - lo (get t S))
+    /\ (forall g, ev_gap g n t' = ev_gap g n t)
+    /\ (ex_exploit n (ex_lo t') (ex_hi t') == ex_exploit n (ex_lo t) (ex_hi t)
+        /\ nm_l1 n (nm_width_tab t') == nm_l1 n (nm_width_tab t)
+        /\ nm_linf n (nm_width_tab t') == nm_linf n (nm_width_tab t)
+        /\ nm_l2sq n (nm_width_tab t') == nm_l2sq n (nm_width_tab t)).
+Proof. exact tr_width_invariant. Qed.
+Print Assumptions C07_gaps_shift_invariant.
+
+(* ... hence the gaps of the bounds COMPUTED from translated knowledge are those computed from the original knowledge,
+   for both superadditive computers (tr_sa_computer: CRef, CCached) *)
+Theorem C07_computed_gaps_shift_invariant :
+  forall (a : nat -> Q) (comp : computer) (n : nat) (t t' : table),
+    tr_sa_computer comp = true -> tr_rel a n t t' ->
+    forall g, match compute comp n t' with Some r => ev_gap g n r | None => None end
+            = match compute comp n t with Some r => ev_gap g n r | None => None end.
+Proof. exact tr_computed_gap_invariant. Qed.
+Print Assumptions C07_computed_gaps_shift_invariant.
+
+(* the knowledge table of the first example (unknown rows: stale 77 / -77) translated by the weights (2; -1; 1/2) *)
+Definition ex_sh_a : nat -> Q := tr_vec [2; -(1); 1#2].
+Definition ex_sh_t : table := table_of 3 ex_K ex_v 77.
+Definition ex_sh_t' : table := tr_shift ex_sh_a 3 ex_sh_t.
+Definition ex_sh_gaps (o : option table) : list (option Q) :=
+  map (fun g => match o with Some r => ev_gap g 3 r | None => None end) [GExploit; GL1; GL2; GLinf].
+Example C07_shift_example :
+  tr_rel ex_sh_a 3 ex_sh_t ex_sh_t'
+  /\ map (fun s => Qred (lo (get ex_sh_t' s) - lo (get ex_sh_t s))) (alln 3) = [0; 2; -(1); 1; 1#2; 5#2; -(1#2); 3#2]
+  /\ ex_sh_gaps (Some ex_sh_t) = [Some (-(154)); Some 462; Some 71148; Some 154]
+  /\ ex_sh_gaps (Some ex_sh_t') = ex_sh_gaps (Some ex_sh_t)
+  /\ ex_sh_gaps (compute CRef 3 ex_sh_t) = [Some (15#2); Some (45#2); Some (675#4); Some (15#2)]
+  /\ ex_sh_gaps (compute CRef 3 ex_sh_t') = ex_sh_gaps (compute CRef 3 ex_sh_t)
+  /\ ex_sh_gaps (compute CCached 3 ex_sh_t') = ex_sh_gaps (compute CRef 3 ex_sh_t).
+Proof.
+  split; [apply tr_shift_rel|]. split; [vm_compute; reflexivity|]. split; [vm_compute; reflexivity|].
+  split; [vm_compute; reflexivity|]. split; [vm_compute; reflexivity|]. split; vm_compute; reflexivity.
 Qed.
